@@ -110,6 +110,9 @@ type c06Fault struct {
 	rd      func() io.Reader
 	openEr  bool
 	rdErr   bool // a read error is injected
+	// reenter: layered storage — before it hands out its reader the opener loads another block (an index, say)
+	// through the same link system
+	reenter bool
 }
 
 // "Load/kind" and "Fill/kind" use a prototype of a kind the block's root does not have: the decode then fails
@@ -146,8 +149,9 @@ func c06Check(c C06Case, rec *evid.Rec) error {
 	}
 	on, _ := nodes.BuildDefault(other)
 	var otherBlock []byte
+	var otherLnk datamodel.Link
 	if ol, err := lsys.Store(linking.LinkContext{}, c.LP.Proto(), on); err == nil {
-		otherBlock = mem.Bag[ol.Binary()]
+		otherBlock, otherLnk = mem.Bag[ol.Binary()], ol
 	}
 
 	var faults []c06Fault
@@ -224,6 +228,18 @@ func c06Check(c C06Case, rec *evid.Rec) error {
 		faults = append(faults, c06Fault{class: "chunking", served: block, rd: func() io.Reader { return &faultReader{data: block, failAt: -1, chunks: ch, eofWithN: len(ch)%2 == 0} }})
 	}
 	faults = append(faults, c06Fault{class: "openerror", openEr: true})
+	if otherLnk != nil {
+		// the opener itself loads through the link system before it answers: the good block must still load
+		// (its hash is computed over its own bytes only) and a damaged one must still be refused
+		faults = append(faults, c06Fault{class: "reentrant-opener", served: block, rd: plain(block), reenter: true})
+		if len(block) > 0 {
+			b := append([]byte{}, block...)
+			b[0] ^= 0x10
+			faults = append(faults, c06Fault{class: "reentrant-opener", served: b, rd: plain(b), reenter: true})
+			bb := append(append([]byte{}, otherBlock...), block...)
+			faults = append(faults, c06Fault{class: "reentrant-opener", served: bb, rd: plain(bb), reenter: true})
+		}
+	}
 
 	// results of good loads are kept across everything that follows: what a load returned must still hash to
 	// its link after any number of later loads (of other, damaged or failing data) through the same link system
@@ -255,6 +271,11 @@ func c06Check(c C06Case, rec *evid.Rec) error {
 			ls.StorageReadOpener = func(linking.LinkContext, datamodel.Link) (io.Reader, error) {
 				if f.openEr {
 					return nil, errInjected
+				}
+				if f.reenter {
+					if inner, ierr := lsys.LoadRaw(linking.LinkContext{Ctx: context.Background()}, otherLnk); ierr != nil || !bytes.Equal(inner, otherBlock) {
+						return nil, fmt.Errorf("harness: the inner load of the layered opener failed: %v", ierr)
+					}
 				}
 				return f.rd(), nil
 			}
